@@ -28,8 +28,7 @@ ASSUMPTIONS = ["Rust semantics of Vec/usize as modelled (checked indexing, debug
                "the sampled cases are where model and code were compared; the theorems are about the model"]
 UNPROVED = ["norm_p over R: non-negativity, homogeneity and norm_p = norm_1 / norm_2 at p = 1 / 2 are proved (pow on non-negative arguments as the real power function); "
             "Minkowski (triangle inequality) and inf <= p <= 1 for general p are searched only",
-            "all norm laws 'up to rounding' over f64 (searched with 1e-12 slack on data of moderate magnitude 1e-3..1e3; proved over R only); "
-            "they FAIL on the real code for entries whose square overflows/underflows (findings/C15-norm-range.md, replayable, not in the default search)",
+            "round two: dot_backward_error, sum_slice_backward_error, norm_1_relative_error (gamma_n), norm_2_relative_error (gamma_{n+1}) in the standard model, dot/sum/norm_1 also at binary64 via Flocq; the norm LAWS 'up to rounding' over f64 remain searched (1e-12 slack on data of moderate magnitude; proved over R only) and FAIL for entries whose square overflows/underflows (recorded finding f64-square-range)",
             "powspace / norm_p over f64 depend on libm pow: tied by tolerance (table of the calls) and searched; their theorems are over R with pow as the real power function",
             "Vector::random: length and range [0,1) observed only"]
 
